@@ -329,3 +329,20 @@ func VerifC02_LengthField() {
 	}
 	c02Check(data)
 }
+
+// VerifC02_WideLeaf: one item with a 1-byte length field: symbolic format code (all 64), symbolic
+// claimed length (all 256), over 9 (thorough 17) fully symbolic bytes: the 2/4/8-byte element
+// types with zero, one (two) elements, lengths that are not a multiple of the width, lengths
+// beyond the input, and a trailing byte after the item.
+func VerifC02_WideLeaf() {
+	vsymExpect("accepted")
+	vsymExpect("rejected")
+	fc := vsymU8() & 0x3F
+	tail := 9
+	if vsymTier() == 1 {
+		tail = 17
+	}
+	data := []byte{fc<<2 | 1, vsymU8()}
+	data = append(data, vsymBytes(tail)...)
+	c02Check(data)
+}
